@@ -527,16 +527,16 @@ def gen_cases(ctx, fpool):
     cases = []
     basic = ["add", "sub", "mul", "div"]
     # (1) basic operations: float x float on the boundary pool, then mixed
-    for _ in range(ctx.scale(1500, 40000)):
+    for _ in range(ctx.scale(1100, 40000)):
         cases.append(("bin", rng.choice(basic), flit(), flit()))
-    for _ in range(ctx.scale(1300, 30000)):
+    for _ in range(ctx.scale(1000, 30000)):
         a, b = lit(), lit()
         if rng.random() < 0.5:
             a = flit()
         else:
             b = flit()
         cases.append(("bin", rng.choice(basic + ["max", "min"]), a, b) if rng.random() < 0.5 else ("bin", rng.choice(basic + ["max", "min"]), b, a))
-    for _ in range(ctx.scale(500, 8000)):
+    for _ in range(ctx.scale(400, 8000)):
         cases.append(("bin", rng.choice(basic + ["max", "min", "div", "div"]), lit(), lit()))
     # (2) unary functors on everything
     uns = list(UN)
@@ -544,10 +544,10 @@ def gen_cases(ctx, fpool):
     for x in F + I[::2] + Q[::2]:
         for o in rng.sample(f2i, 5):
             cases.append(("un", o, x))
-    for _ in range(ctx.scale(700, 15000)):
+    for _ in range(ctx.scale(500, 15000)):
         cases.append(("un", rng.choice(uns), lit()))
     # (3) powers and atan2
-    for _ in range(ctx.scale(500, 10000)):
+    for _ in range(ctx.scale(400, 10000)):
         o = rng.choice(["pow", "ipow", "pow", "ipow", "atan2"])
         a = lit()
         b = lit() if rng.random() < 0.4 else rng.choice([("f", f2b(float(x))) if isinstance(x, float) else ("i", x) for x in SMALL_EXP])
@@ -593,7 +593,7 @@ def gen_cases(ctx, fpool):
         if rng.random() < 0.4:
             return ("un", rng.choice(uns), rnd(depth - 1))
         return ("bin", rng.choice(bins), rnd(depth - 1), rnd(depth - 1))
-    for _ in range(ctx.scale(2300, 60000)):
+    for _ in range(ctx.scale(1700, 60000)):
         cases.append(rnd(rng.choice([2, 3, 3])))
     return cases
 
@@ -771,6 +771,7 @@ def run(ctx):
 
     impl = run_impl(ctx, cases, "impl")
     bools, meta = [], []
+    xcheck = {}
     paths_differ = 0
     for e, (m, c), (out, calls, flags) in zip(cases, impl, info):
         ce, tb = to_coq(e), tbl_coq(calls)
@@ -779,29 +780,48 @@ def run(ctx):
         for path, o in obs:
             bools.append("check %s %s %s" % (tb, ce, o[0]))
             meta.append((e, path, o, out, calls))
+            if o[2] != out:
+                # implementation and Python mirror differ: also ask Coq whether the mirror is what the model says (it is used
+                # below to attribute a difference to the known mis-rounded conversions of dashu)
+                xcheck[len(bools) - 1] = len(bools)
+                bools.append("check %s %s %s" % (tb, ce, obs_of_outcome(out)))
+                meta.append(None)
     dist["paths_differ"] = paths_differ
-    bad, errs = core.coq_eval_bools(ctx.prop, IMPORTS, bools, chunk=max(300, min(ctx.scale(900, 1500), -(-len(bools) // core.NPROC))), timeout=ctx.scale(900, 3000))
+    # the sign of a zero must not depend on the session's history: on a fresh machine produce -0.0 first, then evaluate
+    # atan2(0.0, -1.0) (IEEE: +pi); the model is asked like for every other case
+    zr = core.vrun_query(ctx.prop, [{"id": "z", "consult": "", "queries": ["X is -1.0e-200 * 1.0e-200.", "X is atan2(0.0, -1.0)."],
+                                     "timeout_ms": 20000, "fresh": True}], nproc=1, tag="zerosign")
+    zres = (zr.get("z") or {}).get("results") or [[], []]
+    zo = classify(zres[1] if len(zres) > 1 else [])
+    m1 = f2b(-1.0)
+    bools.append("check [(10, 0, %d, %d)] (Bin BAtan2 (LitF 0) (LitF %d)) %s" % (m1, rbits(_libm.atan2(0.0, -1.0)), m1, zo[0]))
+    meta.append(("zero-sign", zo))
+    bad, errs = core.coq_eval_bools(ctx.prop, IMPORTS, bools, chunk=max(300, min(ctx.scale(1500, 1500), -(-len(bools) // core.NPROC))), timeout=ctx.scale(900, 3000))
     tie_breaks = [{"kind": "coq-eval", "what": "model evaluation shard failed", "detail": t} for _, t in errs]
+    badset = set(bad)
+    mirror_bad = [i for i in bad if meta[i] is None]
+    bad = [i for i in bad if meta[i] is not None]
 
     failures = []
     reported = {}
     unexplained = []
-    # on the cases where model and implementation differ, the Python mirror must agree with the Coq model
-    # (it is used below to attribute a difference to the known double rounding of RBig::to_f64)
-    mirror_ok = set(bad)
-    if bad:
-        mb = ["check %s %s %s" % (tbl_coq(meta[i][4]), to_coq(meta[i][0]), obs_of_outcome(meta[i][3])) for i in bad]
-        mbad, merr = core.coq_eval_bools(ctx.prop, IMPORTS, mb, chunk=max(300, -(-len(mb) // core.NPROC)), tag="mirrorcases", timeout=900)
-        tie_breaks += [{"kind": "coq-eval", "what": "model evaluation shard failed (mirror cross-check)", "detail": t} for _, t in merr]
-        for j in mbad:
-            mirror_ok.discard(bad[j])
-        dist["mirror_differs_from_model"] = len(mbad)
-        for j in mbad[:3]:
-            e = meta[bad[j]][0]
-            tie_breaks.append({"kind": "mirror", "what": "the generator's Python mirror and the Coq model disagree", "detail": "X is %s. mirror=%s" % (to_prolog(e)[:300], outcome_text(meta[bad[j]][3]))})
+    # a difference is attributed to a known defect only when Coq confirms that the Python mirror is the model's answer
+    mirror_ok = set(i for i in bad if i in xcheck and xcheck[i] not in badset)
+    dist["mirror_differs_from_model"] = len(mirror_bad)
+    for j in mirror_bad[:3]:
+        e, path, o, out, calls = meta[j - 1]
+        tie_breaks.append({"kind": "mirror", "what": "the generator's Python mirror and the Coq model disagree",
+                           "detail": "X is %s. mirror=%s" % (to_prolog(e)[:300], outcome_text(out))})
     dist["misrounded_conversion_cases"] = {}
     dist["libm_within_4ulp"] = 0
     for i in bad:
+        if meta[i][0] == "zero-sign":
+            failures.append({"key": "float:zero-sign-interning",
+                             "what": ("the float table interns -0.0 and 0.0 as one cell, so every zero of a session carries the sign of the first zero "
+                                      "that was stored; after a computation that yields -0.0 the literal 0.0 reads as -0.0 and atan2(0.0, -1.0) is -pi"),
+                             "input": "(fresh machine) X is -1.0e-200 * 1.0e-200.  then  X is atan2(0.0, -1.0).", "path": "metacall",
+                             "impl": meta[i][1][1], "spec": "float#%016x" % rbits(_libm.atan2(0.0, -1.0)), "property_fails": True})
+            continue
         e, path, o, out, calls = meta[i]
         # explained by dashu's conversions (RBig::to_f64 / IBig::to_f64) not being correctly rounded ?
         mode = attribute(e, out, o[2]) if i in mirror_ok else None
@@ -859,15 +879,18 @@ def run(ctx):
                 continue
             reported[key] = reported.get(key, 0) + 1
             shows.append((key, s, path, o, calls))
-        for key, s, path, o, calls in shows[:12]:
+        for key, s, path, o, calls in shows[:6]:
             spec = core.coq_eval_show(ctx.prop, IMPORTS, "show %s %s" % (tbl_coq(calls), to_coq(s)))
+            mm = __import__("re").search(r"SFlt (\d+)", spec)
+            if mm:
+                spec += "  (float#%016x)" % int(mm.group(1))
             failures.append({"key": key, "what": "is/2 result differs from the IEEE-754 / ISO model",
                              "input": "X is %s." % to_prolog(s), "path": path, "impl": o[1], "spec": spec, "property_fails": True})
     samples = []
     for e, (m, c), (out, calls, flags) in list(zip(cases, impl, info))[:: max(1, len(cases) // 10)][:10]:
         samples.append({"query": "X is %s." % to_prolog(e)[:200], "impl": m[1][:80], "model(mirror)": outcome_text(out)[:80], "libm_calls": len(calls)})
     return {
-        "evaluations": len(bools),
+        "evaluations": sum(1 for m in meta if m is not None),
         "distinct_nontrivial": len(nontrivial),
         "rule": ("expressions (depth <= 3) over + - * / ** ^ max min atan2 rdiv and - + abs sign float sqrt float_integer_part float_fractional_part "
                  "floor ceiling truncate round exp log sin cos tan asin acos atan and pi/e/epsilon; operands: the double boundary pool (+-0.0, "
